@@ -2,7 +2,7 @@
 import os
 import re
 
-from rules import hirq, mirq, apimisuse
+from rules import hirq, mirq, apimisuse, origins
 from rules.core import walk, norm_path, AnchorMissing, REPO
 
 LEVEL = "other"
@@ -286,6 +286,44 @@ def r6_config(run, F):
            F.where(b), "--color=never must disable colour in rendered diagnostics: %s" % m)
 
 
+def r7_span_start(run, F):
+    """A merged location reports the line and column of its receiver (Location::combined_with copies everything but the
+    span from `self`): a span location must be built as start.combined_with(end), so that the reported line is the line
+    the span starts on."""
+    cw = F.body("alpha::lexer::Location::combined_with")
+    ok = False
+    for path, node in hirq.constructs(cw["hir"]):
+        if hirq.short(path).endswith("Location") and node.get("k") == "Struct":
+            names = [f["name"] for f in node.get("fields", [])]
+            base = hirq.unwrap_trivial(node.get("base") or {})
+            ok = names == ["span"] and base.get("k") == "Path" and base.get("res") == "self"
+    mins = [hirq.callee(c) for c in hirq.calls(cw["hir"])]
+    run.ob("R7-SPAN-START-FIRST", "combined_with", ok and "std::cmp::min" in mins and "std::cmp::max" in mins, F.where(cw),
+           "combined_with = Location { span: min(starts)..max(ends), ..self }: line_number/line_offset are the receiver's")
+    ls = F.body("alpha::parser::Tokens::location_of_span")
+    calls = [c for c in hirq.calls(ls["hir"]) if c.get("k") == "MethodCall" and c.get("name") == "combined_with"]
+    run.require(len(calls) == 1, "Tokens::location_of_span: expected one combined_with call (found %d)" % len(calls))
+    ro = origins.origins(ls["hir"], calls[0]["recv"], ls.get("params", ()))
+    ao = origins.origins(ls["hir"], calls[0]["a"][0], ls.get("params", ()))
+    ok = ("param", "start") in ro and ("field", "last_location") not in ro and ("field", "last_location") in ao
+    run.ob("R7-SPAN-START-FIRST", "Tokens::location_of_span", ok, F.where(ls, calls[0]),
+           "the span location is start.combined_with(&last_location): receiver from `start` (%s), argument from last_location (%s); the other way "
+           "round a construct written over several lines is reported on its last line" % (("param", "start") in ro, ("field", "last_location") in ao))
+    # `cast <operand>`: the keyword comes first, so it is the receiver
+    se = F.body("alpha::parser::parse_singular_expression")
+    sites = [c for c in hirq.calls(se["hir"]) if c.get("k") == "MethodCall" and c.get("name") == "combined_with"]
+    n_kw = 0
+    for c in sites:
+        def names(e):
+            return set(x.get("res") for x in walk(e) if x.get("k") == "Path" and x.get("rk") == "Local")
+        rn, an = names(c["recv"]), names(c["a"][0])
+        if "location_of_keyword" in rn | an:
+            n_kw += 1
+            run.ob("R7-SPAN-START-FIRST", "parse_singular_expression|cast keyword", "location_of_keyword" in rn and "location_of_keyword" not in an, F.where(se, c),
+                   "`cast <operand>` starts at the keyword: the keyword's location is the receiver, the operand's the argument")
+    run.ob("R7-SPAN-START-FIRST", "parse_singular_expression|cast site found", n_kw == 1, F.where(se), "one merge of the cast keyword's location (found %d)" % n_kw)
+
+
 def check(run):
     F = run.facts("B")
     r1_codes(run, F)
@@ -294,3 +332,4 @@ def check(run):
     r4_lines(run, F)
     r5_units(run, F)
     r6_config(run, F)
+    r7_span_start(run, F)
